@@ -149,6 +149,9 @@ struct mdspan {
     constexpr mdspan(mdspan const& rhs) = default;
     constexpr mdspan(mdspan&& rhs)      = default; // NOLINT(performance-noexcept-move-constructor)
 
+    constexpr auto operator=(mdspan const& rhs) -> mdspan& = default;
+    constexpr auto operator=(mdspan&& rhs) -> mdspan&      = default; // NOLINT(performance-noexcept-move-constructor)
+
     template <typename... OtherIndexTypes>
         requires(
             (is_convertible_v<OtherIndexTypes, index_type> && ...)
